@@ -436,7 +436,8 @@ impl PartitionSampler {
     /// Creates a new `PartitionSampler` instance.
     ///
     /// Partitions the given validators into `num_bins` bins of equal stake.
-    /// Partitioning is done randomly by splitting a randomly permuted list of nodes.
+    /// Partitioning is done by splitting a pseudo-randomly permuted list of nodes;
+    /// the permutation is a deterministic function of the validator set and `num_bins`.
     pub fn new(validators: Vec<ValidatorInfo>, num_bins: usize) -> Self {
         if num_bins == 0 {
             return Self {
@@ -452,7 +453,10 @@ impl PartitionSampler {
         let total_stake: Stake = validators.iter().map(|v| v.stake).sum();
         let stake_per_bin = total_stake.div_ceil(num_bins as u64);
         let mut validators_random = validators;
-        validators_random.shuffle(&mut rand::rng());
+        // NOTE: every node must derive the same partition from the same validator set
+        // (relay committees have to agree network-wide), so the permutation is drawn
+        // from a fixed-seed RNG rather than from thread-local entropy
+        validators_random.shuffle(&mut StdRng::seed_from_u64(num_bins as u64));
 
         // partition into bins
         let mut current_bin = 0;
